@@ -81,11 +81,114 @@ func ruleC14After(cx *Ctx) {
 	if wb == nil || tryPush == nil || saw == nil || pcu == nil {
 		return
 	}
+	// a "push wrapper" is a helper that returns true exactly when it pushed its task parameter (a retry loop split off the
+	// enqueue function): its calls are treated like the push itself, with the task argument mapped through
+	type wrapper struct{ taskParam int }
+	wrappers := map[*ssa.Function]wrapper{}
+	isPush := func(in ssa.Instruction) (task ssa.Value, ok bool) {
+		if callOnField(in, wb, tryPush) {
+			if a := callArgs(in); len(a) == 1 {
+				return a[0], true
+			}
+			return nil, true
+		}
+		if g := calleeOf(in); g != nil {
+			if w, isW := wrappers[origin(g)]; isW {
+				if cc := callCommon(in); cc != nil && w.taskParam < len(cc.Args) {
+					return cc.Args[w.taskParam], true
+				}
+			}
+		}
+		return nil, false
+	}
+	asWrapper := func(fn *ssa.Function, pushes []ssa.Instruction) (wrapper, bool) {
+		res := fn.Signature.Results()
+		if res.Len() != 1 || !types.Identical(res.At(0).Type(), types.Typ[types.Bool]) {
+			return wrapper{}, false
+		}
+		cut := map[edge]bool{}
+		tp := -1
+		for _, p := range pushes {
+			v, _ := p.(ssa.Value)
+			ifs := ifsOn(v)
+			if len(ifs) == 0 {
+				return wrapper{}, false
+			}
+			for _, i := range ifs {
+				cut[edge{i.If.Block(), i.TrueIdx}] = true
+				// everything that returns after a success returns true
+				seen := map[*ssa.BasicBlock]bool{}
+				stack := []*ssa.BasicBlock{i.If.Block().Succs[i.TrueIdx]}
+				for len(stack) > 0 {
+					b := stack[len(stack)-1]
+					stack = stack[:len(stack)-1]
+					if seen[b] {
+						continue
+					}
+					seen[b] = true
+					if ret, isRet := b.Instrs[len(b.Instrs)-1].(*ssa.Return); isRet {
+						if k, isK := constBool(ret.Results[0]); !isK || !k {
+							return wrapper{}, false
+						}
+					}
+					stack = append(stack, b.Succs...)
+				}
+			}
+			task, _ := isPush(p)
+			for j, q := range fn.Params {
+				if ssa.Value(q) == task {
+					tp = j
+				}
+			}
+		}
+		if tp < 0 {
+			return wrapper{}, false
+		}
+		// without a success nothing returns true
+		reach := reachableBlocks(fn, cut)
+		for b := range reach {
+			if ret, isRet := b.Instrs[len(b.Instrs)-1].(*ssa.Return); isRet {
+				if k, isK := constBool(ret.Results[0]); !isK || k {
+					return wrapper{}, false
+				}
+			}
+		}
+		return wrapper{tp}, true
+	}
 	found := 0
+	for round := 0; round < 3; round++ {
+		grew := false
+		for _, fn := range cx.P.FuncsOfPkg("") {
+			if _, isW := wrappers[origin(fn)]; isW || len(fn.Blocks) == 0 {
+				continue
+			}
+			var pushes []ssa.Instruction
+			allInstrs(fn, func(in ssa.Instruction) {
+				if _, ok := isPush(in); ok {
+					pushes = append(pushes, in)
+				}
+			})
+			if len(pushes) == 0 {
+				continue
+			}
+			if w, ok := asWrapper(fn, pushes); ok {
+				wrappers[origin(fn)] = w
+				grew = true
+			}
+		}
+		if !grew {
+			break
+		}
+	}
 	for _, fn := range cx.P.FuncsOfPkg("") {
+		if _, isW := wrappers[origin(fn)]; isW {
+			found++
+			cx.R.OK(rule, funcName(fn), "push wrapper", cx.P.Pos(fn.Pos()), "returns true exactly when it pushed its task: its callers are held to the enqueue discipline")
+			continue
+		}
 		var pushes []ssa.Instruction
 		allInstrs(fn, func(in ssa.Instruction) {
-			if callOnField(in, wb, tryPush) {
+			if _, ok := isPush(in); ok {
 				pushes = append(pushes, in)
 			}
 		})
@@ -108,13 +211,13 @@ func ruleC14After(cx *Ctx) {
 				cx.R.Check(ok, rule, name, "TryPush success edge", cx.P.where(p), "after a successful TryPush every path to return calls scheduleAfterWrite", w...)
 			}
 			// the pushed task is a parameter of the function
-			args := callArgs(p)
+			task, _ := isPush(p)
 			isFallback := func(in ssa.Instruction) bool {
 				if !isCallTo(in, pcu) {
 					return false
 				}
 				a := callArgs(in)
-				return len(a) == 1 && len(args) == 1 && a[0] == args[0]
+				return len(a) == 1 && task != nil && a[0] == task
 			}
 			ok, w := MustFollowPt(Pt{fn.Blocks[0], 0}, func(in ssa.Instruction) bool { return isSched(in) || isFallback(in) }, exitReturn, nil)
 			cx.R.Check(ok, rule, name, "no dropped task", cx.P.where(p), "every path of the enqueue function ends in scheduleAfterWrite (after a successful push) or performCleanUp(task)", w...)
@@ -322,8 +425,71 @@ func ruleC14Status(cx *Ctx) {
 				}
 			}
 		})
-		ok, w := MustFollowPt(Pt{dwb.Blocks[0], 0}, func(in ssa.Instruction) bool { return isStoreConst(in, ds, st.pToRequired) }, exitReturn, cut)
-		cx.R.Check(ok && len(cut) >= 2, rule, name, "drain-cap", cx.P.Pos(dwb.Pos()),
+		isReq := func(in ssa.Instruction) bool { return isStoreConst(in, ds, st.pToRequired) }
+		ok, w := MustFollowPt(Pt{dwb.Blocks[0], 0}, isReq, exitReturn, cut)
+		if !ok && len(cut) >= 1 {
+			// the loop may report how it ended instead of storing the status itself: it returns one constant on the
+			// exits that leave nothing behind (cut edges) and the other one at the cap, and every caller stores
+			// processingToRequired on the cap value
+			res := dwb.Signature.Results()
+			if res.Len() == 1 && types.Identical(res.At(0).Type(), types.Typ[types.Bool]) {
+				reach := reachableBlocks(dwb, cut)
+				capVal, capOK, restOK := false, true, true
+				nCap := 0
+				for _, b := range dwb.Blocks {
+					ret, isRet := b.Instrs[len(b.Instrs)-1].(*ssa.Return)
+					if !isRet {
+						continue
+					}
+					k, isK := constBool(ret.Results[0])
+					if reach[b] {
+						if !isK || (nCap > 0 && k != capVal) {
+							capOK = false
+						}
+						capVal = k
+						nCap++
+					}
+				}
+				for _, b := range dwb.Blocks {
+					ret, isRet := b.Instrs[len(b.Instrs)-1].(*ssa.Return)
+					if isRet && !reach[b] {
+						if k, isK := constBool(ret.Results[0]); !isK || k == capVal {
+							restOK = false
+						}
+					}
+				}
+				callers := 0
+				callersOK := true
+				if capOK && restOK && nCap > 0 {
+					for _, f := range cx.P.FuncsOfPkg("") {
+						allInstrs(f, func(in ssa.Instruction) {
+							if !isCallTo(in, dwb) {
+								return
+							}
+							callers++
+							v, _ := in.(ssa.Value)
+							ifs := ifsOn(v)
+							if len(ifs) == 0 {
+								callersOK = false
+							}
+							for _, i := range ifs {
+								idx := i.TrueIdx
+								if !capVal {
+									idx = 1 - idx
+								}
+								if o, _ := MustFollowPt(Pt{i.If.Block().Succs[idx], 0}, isReq, exitReturn, nil); !o {
+									callersOK = false
+								}
+							}
+						})
+					}
+				}
+				if capOK && restOK && nCap > 0 && callers > 0 && callersOK {
+					ok, w = true, nil
+				}
+			}
+		}
+		cx.R.Check(ok && len(cut) >= 1, rule, name, "drain-cap", cx.P.Pos(dwb.Pos()),
 			"leaving the drain loop with tasks possibly pending stores processingToRequired", w...)
 	}
 	// (d)-(f) decided on the control-flow graph specialised to one status value at a time: every comparison of the
